@@ -183,6 +183,10 @@ func runFD(c FDCase) *vkit.Outcome {
 		doc := fmt.Sprintf(`{"id":"%d"}`, i)
 		if c.Split {
 			doc = fmt.Sprintf(`{"id":"%d","items":[{"id":"%d"},{"id":"%d"}]}`, i, 1000+2*i, 1001+2*i)
+			if i%3 == 2 {
+				// nothing to split (no object among the elements): the event itself travels on
+				doc = fmt.Sprintf(`{"id":"%d","items":[1,"two",null]}`, i)
+			}
 		}
 		in.In(0, "c09fd", pipeline.NewOffsets(int64(i+1), nil), []byte(doc))
 	}
@@ -221,7 +225,7 @@ func runFD(c FDCase) *vkit.Outcome {
 		// what the endpoints are to receive for this source event: the event, or its two children
 		what := what
 		parts := []string{id}
-		if c.Split {
+		if c.Split && i%3 != 2 {
 			parts = []string{fmt.Sprint(1000 + 2*i), fmt.Sprint(1001 + 2*i)}
 			what += "; split action"
 			if primaryGot[id] > 0 || reserveGot[id] > 0 {
@@ -269,7 +273,7 @@ func runFD(c FDCase) *vkit.Outcome {
 		o.Class("fd-config:retry-forever")
 		for i := 0; i < c.Events; i++ {
 			ids := []string{fmt.Sprint(i)}
-			if c.Split {
+			if c.Split && i%3 != 2 {
 				ids = []string{fmt.Sprint(1000 + 2*i), fmt.Sprint(1001 + 2*i)}
 			}
 			for _, id := range ids {
